@@ -144,3 +144,25 @@ func runNested(t *rapid.T, ll gtab.LookupList, gd *gdef.Table, alpha []glyph.ID,
 		stats.CaseIn(sub, stats.Hash(c.String()), c.nontriv > 0, func() string { return c.String() }, fmt.Sprintf("contexts-%d", nCtx))
 	}
 }
+
+// TestC06RegressNestedLookaheadAcrossWindow: a format 3 chaining context run
+// as a nested lookup with IgnoreMarks; a mark stands between the end of the
+// parent's one-glyph window and the lookahead glyph.
+func TestC06RegressNestedLookaheadAcrossWindow(t *testing.T) {
+	gd := &gdef.Table{GlyphClass: classdef.Table{5: gdef.GlyphClassMark}}
+	ll := gtab.LookupList{
+		{Meta: &gtab.LookupMetaInfo{LookupType: 5}, Subtables: []gtab.Subtable{
+			&gtab.SeqContext1{Cov: lookups.CovTable([]glyph.ID{2}), Rules: [][]*gtab.SeqRule{{{Actions: []gtab.SeqLookup{{SequenceIndex: 0, LookupListIndex: 1}}}}}}}},
+		{Meta: &gtab.LookupMetaInfo{LookupType: 6, LookupFlags: gtab.IgnoreMarks}, Subtables: []gtab.Subtable{
+			&gtab.ChainedSeqContext3{Input: []coverage.Set{{2: true}}, Lookahead: []coverage.Set{{2: true}}, Actions: []gtab.SeqLookup{{SequenceIndex: 0, LookupListIndex: 2}}}}},
+		{Meta: &gtab.LookupMetaInfo{LookupType: 1}, Subtables: []gtab.Subtable{
+			&gtab.Gsub1_2{Cov: lookups.CovTable([]glyph.ID{2}), SubstituteGlyphIDs: []glyph.ID{3}}}},
+	}
+	c := &listCase{env: &lookups.Env{Alphabet: []glyph.ID{2, 3, 5}, Gdef: gd}, res: &lookups.Result{List: ll}, kind: gtab.TypeGsub, order: []gtab.LookupIndex{0}}
+	for _, seq := range [][]glyph.ID{{2, 5, 2}, {2, 5, 5, 2, 2}, {2, 2}, {2, 5}} {
+		if err := c.compare(seq); err != nil {
+			t.Fatalf("%v\n%s", err, c)
+		}
+	}
+	stats.CaseIn("regress", 0xC06C, true, func() string { return "nested format 3 chaining context, ignored glyph between window and lookahead" })
+}
